@@ -318,7 +318,10 @@ class Environment:
 
         for event in events_to_unpause:
             self._paused_events.remove(event)
-            event.time += self.now - event.paused_at
+            # With times that are not exactly representable the sum can
+            # round to just below the current time; never re-insert an
+            # event in the past (the clock must not go backwards).
+            event.time = max(self.now, event.time + (self.now - event.paused_at))
             bisect.insort(self._events, event)
 
     def add_datapoint(self, list_label, sub_label, datapoint):
